@@ -332,9 +332,11 @@ static void case_c11(rng_t *r, ctx_t *c) {
             adf = d.annotation_decimate_factor ? d.annotation_decimate_factor : 100;
             int fcls; int64_t first = gen_first_id(r, &fcls);
             d.sample_id_offset = first;
+            int is_vsr = rng_chance(r, 1, 4);   /* variable-sample-rate signals carry annotations only; their timestamps are not offset */
+            if (is_vsr) { d.signal_type = JLS_SIGNAL_TYPE_VSR; d.sample_rate = 0; d.sample_id_offset = 0; first = 0; }
             prog_add_signal(&p, &d, "anno", "", PAT_RANDOM, rng_u64(r));
             sid = d.signal_id;
-            fsr_data = rng_chance(r, 1, 2);
+            fsr_data = !is_vsr && rng_chance(r, 1, 2);
             if (fsr_data) { add_stream(&lists[nl], r, sid, first, rng_range(r, 1, 300), 10, PART_RANDOM, 0); base = first; }
         }
         ids[i] = sid; adfs[i] = adf; withdata[i] = fsr_data;
@@ -585,7 +587,7 @@ static void case_c13(rng_t *r, ctx_t *c) {
     }
     /* signals: valid ones name a defined source; some invalid ones are expected to be rejected */
     int nsig = (int) rng_range(r, 1, 5);
-    uint16_t sig_ids[8]; int sig_n = 0;
+    uint16_t sig_ids[8]; int sig_vsr[8] = {0}; int sig_n = 0;
     for (int i = 0; i < nsig; ++i) {
         uint16_t id = (uint16_t) rng_range(r, 1, 255);
         int dup = 0; for (int k = 0; k < sig_n; ++k) if (sig_ids[k] == id) dup = 1;
@@ -594,6 +596,8 @@ static void case_c13(rng_t *r, ctx_t *c) {
         const dtype_t *t = pick_type(r);
         struct jls_signal_def_s d;
         gen_def(r, &d, id, src_ids[rng_below(r, (uint64_t) src_n)], t, rng_chance(r, 1, 2) ? DEF_MINIMAL : DEF_SMALL);
+        sig_vsr[sig_n - 1] = rng_chance(r, 1, 5);
+        if (sig_vsr[sig_n - 1]) { d.signal_type = JLS_SIGNAL_TYPE_VSR; d.sample_rate = 0; }   /* definitions of both signal types round-trip */
         int ncls = (int) rng_below(r, 5), ucls = (int) rng_below(r, 5);
         char *nm = make_string(r, ncls ? ncls : 2, NULL), *un = make_string(r, ucls ? ucls : 1, NULL);
         prog_add_signal(&p, &d, nm, un, PAT_RANDOM, rng_u64(r));
@@ -609,7 +613,7 @@ static void case_c13(rng_t *r, ctx_t *c) {
     for (int i = 0; i < sig_n; ++i) {
         oplist_t *l = &ldata;
         int64_t first = rng_range(r, -20, 1000);
-        int64_t n = rng_range(r, 0, 400);
+        int64_t n = sig_vsr[i] ? 0 : rng_range(r, 0, 400);
         int64_t pos = first;
         while (n > 0) {
             op_t *o = ol_add(l, OP_FSR);
@@ -960,6 +964,21 @@ static void build_mix(prog_t *p, rng_t *r, ctx_t *c, char *feat, size_t featn, i
             free(sp);
         }
         fn += (size_t) snprintf(feat + fn, featn - fn, "%s%s/%s/%s", i ? "+" : "", t->name, DEF_CLASS_NAME[dcls], n == 0 ? "empty" : "data");
+        ++nl;
+    }
+    /* a variable-sample-rate signal (annotations only), id above or below the FSR signals */
+    if (rng_chance(r, 1, 3)) {
+        struct jls_signal_def_s d;
+        uint16_t sid = rng_chance(r, 1, 2) ? 40 : 0;
+        if (!sid) { sid = 1; for (size_t z = 0; z < p->nsig; ++z) if (p->sig[z].def.signal_id == 1) sid = 41; }
+        gen_def(r, &d, sid, 1, dtype_by_name("f32"), DEF_MINIMAL);
+        d.signal_type = JLS_SIGNAL_TYPE_VSR; d.sample_rate = 0;
+        size_t before = p->n;
+        prog_add_signal(p, &d, "vsr", "", PAT_WALK, 1);
+        *ol_add(&lists[nl], OP_SIGNAL) = p->ops[before]; p->n = before;
+        int nva = (int) rng_range(r, 0, 25); int64_t vts = rng_range(r, -100, 100);
+        for (int i = 0; i < nva; ++i) { op_t *a = ol_add(&lists[nl], OP_ANNO); a->id = sid; vts += (int64_t) rng_below(r, 3); a->ts = vts; a->y = (float) i; a->atype = (uint8_t) rng_below(r, 4); a->stype = (uint8_t) rng_range(r, 1, 3); a->dsize = (uint32_t) rng_range(r, 1, 40); a->dseed = rng_u64(r); a->group = (uint8_t) i; }
+        fn += (size_t) snprintf(feat + fn, featn - fn, "+vsr");
         ++nl;
     }
     /* global annotations and user data */
